@@ -10,7 +10,8 @@ import (
 // four components fail: the raw-key store (the view extended by {0}), the node store (extended by {1}), the root cell
 // (key {2}) or the size cell (key {3}).  Reads are forwarded.
 type faultCtl struct {
-	region int // -1: no fault; 0 raw keys, 1 node store, 2 root cell, 3 size cell
+	region int  // -1: no fault; 0 raw keys, 1 node store, 2 root cell, 3 size cell
+	read   bool // the fault hits iterations (reads) instead of writes
 }
 
 var errFault = errors.New("harness: injected store write fault")
@@ -24,7 +25,7 @@ type faultStore struct {
 var _ kvstore.KVStore = &faultStore{}
 
 func (f *faultStore) hit(key []byte) bool {
-	if f.ctl.region < 0 {
+	if f.ctl.region < 0 || f.ctl.read {
 		return false
 	}
 	if f.region >= 0 {
@@ -59,11 +60,21 @@ func (f *faultStore) WithExtendedRealm(realm kvstore.Realm) (kvstore.KVStore, er
 
 func (f *faultStore) Realm() kvstore.Realm { return f.inner.Realm() }
 
+func (f *faultStore) hitIter() bool { return f.ctl.read && f.region >= 0 && f.region == f.ctl.region }
+
 func (f *faultStore) Iterate(prefix kvstore.KeyPrefix, c kvstore.IteratorKeyValueConsumerFunc, d ...kvstore.IterDirection) error {
+	if f.hitIter() {
+		return errFault
+	}
+
 	return f.inner.Iterate(prefix, c, d...)
 }
 
 func (f *faultStore) IterateKeys(prefix kvstore.KeyPrefix, c kvstore.IteratorKeyConsumerFunc, d ...kvstore.IterDirection) error {
+	if f.hitIter() {
+		return errFault
+	}
+
 	return f.inner.IterateKeys(prefix, c, d...)
 }
 
